@@ -4,7 +4,7 @@ import pk, src
 from common import jhash, first_diff
 from pkgrun import *
 
-PROF = profile(tokens=True, no_textbox_in_link=True, math_markup=True, p_math=0.12, p_link=0.3, p_noteref=0.15, p_rpr=0.6, p_textbox=0.03,
+PROF = profile(tokens=True, math_markup=True, p_math=0.12, p_link=0.3, p_noteref=0.15, p_rpr=0.6, p_textbox=0.03,
                p_footnotes=0.9, p_endnotes=0.8, p_comments=0.6, p_table=0.12, inlines=(1, 5), p_text=0.6)
 RULE = ('packages with many hyperlinks (resolvable, anchor-only, both, empty id, dangling id; one or many runs of equal or different '
         'formatting; in body, headers, notes, comments) and note references; notes with separators, several paragraphs, empty notes; '
